@@ -294,8 +294,8 @@ def rule_result_slots(ctx, rid):
     slot = _os.cls
     n = 0
     for g in m.funcs.values():
-        if not g.module.name.startswith("uberjob._execution"):
-            continue
+        if g.module.name.startswith(("uberjob._testing", "uberjob.progress")):
+            continue  # (test doubles; the observers' own state)
         for node in g.own_nodes():
             tgs = node.targets if isinstance(node, ast.Assign) else [node.target] if isinstance(node, (ast.AugAssign, ast.AnnAssign)) else []
             tgs = [x for t in tgs for x in (t.elts if isinstance(t, (ast.Tuple, ast.List)) else [t])]
@@ -313,7 +313,7 @@ def rule_result_slots(ctx, rid):
                            "`.value` stored on a Slot" if ok else
                            f"`{norm(t)}` may be a node of the plan (literal nodes are their own slots and are shared with the caller's plan): "
                            f"storing into it modifies the caller's plan", norm(node)[:80])
-    ctx.floor(rid, "`.value` stores in the execution modules", n, 2)
+    ctx.floor(rid, "`.value` stores outside constructors", n, 1)
 
 
 # ------------------------------------------------------------------------------------------------ finally must not raise/return
